@@ -204,7 +204,7 @@ def process_strategy(draw):
 
 PARTS = [
     Part("process", lambda tier: process_strategy(), check_process,
-         {"quick": 200, "thorough": 6000}, floor={"quick": 25, "thorough": 800}, shrink={"quick": False, "thorough": True}),
+         {"quick": 280, "thorough": 6000}, floor={"quick": 25, "thorough": 600}, shrink={"quick": False, "thorough": True}),
     Part("curve", lambda tier: curve_strategy(), check_curve, {"quick": 160, "thorough": 5000}, floor={"quick": 20, "thorough": 600},
          shrink={"quick": False, "thorough": True}),
 ]
